@@ -52,6 +52,28 @@ func (g genCtx) genText(t *rapid.T) vk.Str {
 		}
 		n := lim + rapid.IntRange(-1, 2).Draw(t, "delta")
 		var sb strings.Builder
+		if lim > 16 {
+			// long strings: a short pattern of mixed-width characters repeated
+			// up to the length, optionally with invalid bytes between two
+			// characters at the start / just before / at / after the cut / at
+			// the end.
+			pat := rapid.SliceOfN(rapid.SampledFrom(repeatRunes), 1, 4).Draw(t, "pattern")
+			inv, at := "", -1
+			if rapid.Bool().Draw(t, "long_invalid") {
+				inv = rapid.SampledFrom(vk.InvalidFragments).Draw(t, "frag")
+				at = min(n, max(0, rapid.SampledFrom([]int{0, 1, lim - 1, lim, lim + 1, n}).Draw(t, "at")))
+			}
+			for i := 0; i < n; i++ {
+				if i == at {
+					sb.WriteString(inv)
+				}
+				sb.WriteRune(pat[i%len(pat)])
+			}
+			if at == n {
+				sb.WriteString(inv)
+			}
+			return vk.Str(sb.String())
+		}
 		for i := 0; i < n; i++ {
 			sb.WriteRune(rapid.SampledFrom(repeatRunes).Draw(t, "r"))
 		}
@@ -156,6 +178,11 @@ func genCase(t *rapid.T, path string, strHeavy bool) Case {
 		if c.LenLimit < 0 && rapid.IntRange(0, 3).Draw(t, "keep_unlimited_len") > 0 {
 			c.LenLimit = rapid.SampledFrom([]int{0, 1, 3, 8}).Draw(t, "len_limit2")
 		}
+		if rapid.IntRange(0, 4).Draw(t, "len_limit_wide") == 0 {
+			// any limit, not only the corner set: 1..511 on a log scale
+			// (strings near the limit follow it, see genText).
+			c.LenLimit = genLogInt(t, 8, "len_limit_log")
+		}
 	}
 	g := genCtx{lenLimit: c.LenLimit, strHeavy: strHeavy}
 	g.nestedDup = rapid.IntRange(0, 3).Draw(t, "nested_dup_class") == 0
@@ -193,6 +220,7 @@ func genCase(t *rapid.T, path string, strHeavy bool) Case {
 			c.EmitScribble = sc - 2
 		}
 		c.EmitTwice = rapid.IntRange(0, 2).Draw(t, "emit_twice") == 0
+		genEmitConfig(t, &c)
 		minOps = 0
 	}
 	if strHeavy && rapid.IntRange(0, 9).Draw(t, "first_set_all") < 6 {
@@ -205,10 +233,17 @@ func genCase(t *rapid.T, path string, strHeavy bool) Case {
 		c.Ops = append(c.Ops, op)
 		minOps, maxOps = 0, maxOps-1
 	}
-	// Ops are drawn without state (a slice generator shrinks by deleting
-	// elements): a clone beyond the record budget is skipped when the case
-	// runs and the target index is taken modulo the number of records alive.
-	opGen := rapid.Custom(func(t *rapid.T) Op {
+	opGen := g.opGen(alphabet, strHeavy, 10)
+	c.Ops = append(c.Ops, rapid.SliceOfN(opGen, minOps, maxOps).Draw(t, "ops")...)
+	return c
+}
+
+// opGen draws one small step. Ops are drawn without state (a slice generator
+// shrinks by deleting elements): a clone beyond the record budget is skipped
+// when the case runs and the target index is taken modulo the number of
+// records alive.
+func (g genCtx) opGen(alphabet []string, strHeavy bool, maxKVs int) *rapid.Generator[Op] {
+	return rapid.Custom(func(t *rapid.T) Op {
 		op := Op{}
 		k := rapid.IntRange(0, 9).Draw(t, "opkind")
 		switch {
@@ -241,10 +276,29 @@ func genCase(t *rapid.T, path string, strHeavy bool) Case {
 			op.Scribble = sc - 2
 		}
 		if op.Arg != "same" {
-			op.KVs = g.genKVs(t, alphabet, 10)
+			op.KVs = g.genKVs(t, alphabet, maxKVs)
 		}
 		return op
 	})
-	c.Ops = append(c.Ops, rapid.SliceOfN(opGen, minOps, maxOps).Draw(t, "ops")...)
-	return c
+}
+
+// genEmitConfig draws how the limits reach the LoggerProvider: through the
+// options (default of the generator), through the two environment variables,
+// through both (the option is documented to win) or not at all (documented
+// defaults 128 / unlimited, which then are the limits of the case).
+func genEmitConfig(t *rapid.T, c *Case) {
+	switch rapid.IntRange(0, 9).Draw(t, "config") {
+	case 0, 1:
+		c.Config = "env"
+	case 2:
+		c.Config = "env_and_option"
+		c.EnvCount = rapid.SampledFrom(countLimits).Draw(t, "env_count")
+		c.EnvLen = rapid.SampledFrom(lenLimits).Draw(t, "env_len")
+	case 3:
+		c.Config = "default"
+		c.CountLimit, c.LenLimit = 128, -1
+	case 4:
+		// one limit by option, the other one by environment variable.
+		c.Config = rapid.SampledFrom([]string{"count_env_len_option", "count_option_len_env"}).Draw(t, "mixed")
+	}
 }
